@@ -42,12 +42,17 @@ def judge_c08(rec):
     pur = "-"
     out = []
     cls = []
+    # purity tolerance in force: the caller's for an explicit contract(tol=...), else the documented default
+    t = float(st.get("tol", 1e-6)) if st["k"] == "contract" else 1e-6
+    deficit = 0.0
     for mem, b in b0.items():
         r, d = block_rho(b, rec.pre)
         p = ref.purity(r)
-        cls.append("pure" if p > 1 - 1e-9 else "mixed" if p < 1 - 1e-4 else "edge")
+        cls.append("pure" if p > 1 - 1e-9 else "mixed" if p < 1 - max(1e-4, 2 * t) else "edge")
+        if cls[-1] == "edge":
+            deficit = max(deficit, 1 - p)
     pur = "+".join(sorted(set(cls)))
-    cell = (st["k"], sig["via"], sig["storage"], sig["level"], pur, rec.contraction, st.get("final", "-"))
+    cell = (st["k"], sig["via"], sig["storage"], sig["level"], pur, rec.contraction, st.get("final", "-"), st.get("tol", "-"))
     sig["purity"] = pur
     # physics unchanged (also when the call raised)
     try:
@@ -60,7 +65,9 @@ def judge_c08(rec):
     e = ref.maxdiff(r0, r1)
     # a block whose purity deficit lies between 1e-9 and 1e-4 sits on the library's documented contraction tolerance
     # (1e-6 on Tr rho^2): contracting it may legitimately move the state by up to ~1e-6
-    tol = 2e-6 if "edge" in cls else S.EXACT_TOL
+    # (with a caller-chosen tolerance t the block may be replaced by its dominant eigenvector whenever the deficit
+    # is below t; that moves the state by at most the deficit)
+    tol = (2e-6 if t <= 1e-6 else max(2e-6, 2 * deficit)) if "edge" in cls else S.EXACT_TOL
     if e > tol:
         out.append(V("C08", "violated", "state-changed", f"{st['k']}: maxabs={e:.3g}", cell=cell, **sig))
     # level rules per addressed block
@@ -365,4 +372,23 @@ def judge_c16_step(rec):
     out = contracts.drain("C16")
     for v in out:
         v["cell"] = ("in-situ",) + tuple(v["cell"] or ())
+    return out
+
+
+def judge_c16_effect(rec):
+    """in situ: what an expression-defined operation did to the joint state equals the value of its expression at
+    the dimension list of its operands (also when the Operation object was used on other operands before)"""
+    st = rec.step
+    if st["k"] != "apply" or "expr" not in (st.get("op") or {}) or st.get("fault") or st.get("dead_probe"):
+        return []
+    from pwv import oracles as O
+    out = []
+    for pr in ("C01", "C03"):
+        for v in O.judge_apply(rec, pr):
+            v = dict(v)
+            v["prop"] = "C16"
+            if v["status"] == "violated":
+                v["mode"] = "in-situ-" + v["mode"]
+            v["cell"] = ("in-situ-effect", st["op"]["fam"] + "." + st["op"]["type"], "reused" if st.get("op_id") is not None else "fresh")
+            out.append(v)
     return out
